@@ -150,8 +150,13 @@ def _e_uni_fit_candidates(spec, rs, variant):
         cands.insert(1, FailingMarginal(base=zoo.UNI_FAMILIES[2], mode='always', tag='F'))
     x = vec(rs, 40, 'nd_f8', 0.5, 6.0)
 
+    kw = {'selection_sample_size': 15} if spec.get('selection_sample_size') else {}
+    if spec.get('selection_sample_size') and variant == 'list_plain':
+        big = rs.uniform(0.5, 6.0, size=(40, 3))
+        x = big[:, 1]                                   # a column view of a caller's matrix
+
     def call(candidates, X):
-        m = Univariate(candidates=candidates)
+        m = Univariate(candidates=candidates, **kw)
         m.fit(X)
         return type(m._instance).__name__
     return call, (cands, x), {}, None
@@ -388,9 +393,13 @@ def _e_datasets(spec, rs, variant):
     return getattr(datasets, name), (int(spec.get('size', 12)), int(spec.get('dseed', 3))), {}, None
 
 
-def _viz_frames(rs, d, n=12, index='range', ties=False):
+def _viz_frames(rs, d, n=12, index='range', ties=False, int_real=False):
     real = pd.DataFrame(rs.normal(size=(n, d)), columns=['a', 'b', 'c', 'e'][:d])
     synth = pd.DataFrame(rs.normal(size=(n + 3, d)) + 1.0, columns=['a', 'b', 'c', 'e'][:d])
+    if int_real:
+        # the real table holds integer columns (ages, counts), the synthetic one floats
+        real = (real * 10).round().astype('int64')
+        synth = synth * 10 + 0.37
     if ties:
         # integer-like data with repeated rows and rows that tie on some columns only
         real = (real * 2).round()
@@ -449,7 +458,8 @@ def _e_compare(spec, rs, variant):
     dims = 2 if variant.startswith('2d') else 3
     with_cols = variant.endswith('_columns')
     real, synth = _viz_frames(rs, dims + (1 if with_cols else 0),
-                              index=spec.get('index', 'range'), ties=spec.get('ties', False))
+                              index=spec.get('index', 'range'), ties=spec.get('ties', False),
+                              int_real=spec.get('int_real', False))
     cols = list(real.columns[-dims:]) if with_cols else None
     if cols and spec.get('reverse_columns'):
         cols = cols[::-1]
@@ -483,6 +493,7 @@ def _rand_spec(rng):
             'generic': rng.random() < 0.5, 'edges': rng.random() < 0.6,
             'index': rng.choice(['range', 'filtered', 'shifted', 'labels']),
             'reverse_columns': rng.random() < 0.5, 'ties': rng.random() < 0.4,
+            'int_real': rng.random() < 0.3, 'selection_sample_size': rng.random() < 0.5,
             'dataset': rng.choice(['sample_bivariate_age_income', 'sample_trivariate_xyz',
                                    'sample_univariate_bimodal', 'sample_univariates',
                                    'sample_univariate_degenerate']),
@@ -506,7 +517,8 @@ def fixed_runs(tier):
                                   'vine_type': zoo.VINE_TYPES[len(runs) % 3],
                                   'index': ['range', 'filtered', 'shifted', 'labels'][len(runs) % 4],
                                   'reverse_columns': len(runs) % 2 == 1,
-                                  'ties': len(runs) % 3 == 0},
+                                  'ties': len(runs) % 3 == 0, 'int_real': len(runs) % 5 == 0,
+                                  'selection_sample_size': len(runs) % 2 == 0},
                          'seed': 100 + len(runs), 'readonly': False, 'ops': []})
     return runs
 
